@@ -387,6 +387,26 @@ Theorem C09_h2_late_size_check_refuted :
 Proof. exact h2_late_size_check_refuted. Qed.
 Print Assumptions C09_h2_late_size_check_refuted.
 
+(* ---------- (round 7) GOAWAY sequences on a multiplexed connection ---------- *)
+
+(* for every sequence of GOAWAY frames (one, or a graceful shutdown 2^31-1 then the real id, or
+   any other): an outstanding stream stays on the connection iff its id is at or below EVERY
+   announced last-stream-id, it is sent again on another connection iff it is above one of them,
+   and no outstanding request is lost *)
+Theorem C09_goaway_every_frame_counts : forall open lasts,
+  let '(kept, resent) := goaway_run open lasts in
+  (forall id, In id kept <-> In id open /\ forall l, In l lasts -> id <= l) /\
+  (forall id, In id resent <-> In id open /\ exists l, In l lasts /\ l < id) /\
+  (forall id, In id open -> In id kept \/ In id resent).
+Proof. exact goaway_every_frame_counts. Qed.
+Print Assumptions C09_goaway_every_frame_counts.
+
+Theorem C09_goaway_first_only_refuted :
+  goaway_run [1; 3; 5] [goaway_max; 3] = ([1; 3], [5]) /\
+  goaway_run_first_only [1; 3; 5] [goaway_max; 3] = ([1; 3; 5], []).
+Proof. exact goaway_first_only_refuted. Qed.
+Print Assumptions C09_goaway_first_only_refuted.
+
 (* non-vacuity of the HTTP/2 and HTTP/3 machines: two requests share one dialled connection with
    stream ids 1 and 3, a third id is 5 after the first finished; the HTTP/3 client is closed by
    CloseIdleConnections only after its request finished *)
